@@ -1,6 +1,7 @@
 package vt
 
 import (
+	"os/exec"
 	"context"
 	"encoding/json"
 	"errors"
@@ -59,6 +60,7 @@ type RunParams struct {
 	// environment
 	PubMode    string      `json:"pub_mode"`    // ok | fail | slow
 	DNS        wire.StrMap `json:"dns"`         // addr -> "name1,name2" | "!err" | "~slow:name" | "" (empty list)
+	TCPBlock   string      `json:"tcp_block"`   // "src2": policy routing gives TCP to the target another source address than UDP; "reject": the namespace's own filter answers a TCP connect to the target with ICMP host-unreachable (connect: EHOSTUNREACH)
 	ListenPort int         `json:"listen_port"` // harness TCP listener on the target (SACK capability); 0 = none
 }
 
@@ -84,6 +86,14 @@ func (f *scriptedFetcher) GetIP(ctx context.Context) (net.IP, error) {
 	}
 	return net.ParseIP("203.0.113.77"), nil
 }
+
+// httpError: a non-200 answer of the server. The causes it exposes are the ones its TEXT names (the body is all a client gets).
+type httpError struct {
+	status int
+	body   string
+}
+
+func (e *httpError) Error() string { return fmt.Sprintf("http %d: %s", e.status, e.body) }
 
 type runOut struct {
 	Src   string   `json:"src"`
@@ -162,6 +172,26 @@ func runRun(t *testing.T, s *Scenario) (evs []wire.Event) {
 			}
 			defer os.WriteFile(f, old, 0o644)
 		}
+	}
+	if rp.TCPBlock == "reject" {
+		rule := []string{"OUTPUT", "-p", "tcp", "-d", rp.Hostname, "-j", "REJECT", "--reject-with", "icmp-host-unreachable"}
+		if out, err := exec.Command("iptables", append([]string{"-I"}, rule...)...).CombinedOutput(); err != nil {
+			t.Fatalf("harness: iptables: %v %s", err, out)
+		}
+		defer exec.Command("iptables", append([]string{"-D"}, rule...)...).Run()
+	}
+	if rp.TCPBlock == "src2" {
+		// policy routing: TCP to the target leaves from ANOTHER local address (10.77.0.2) than everything else (10.77.0.1)
+		sh := func(undo bool, lines ...string) {
+			for _, l := range lines {
+				if out, err := exec.Command("sh", "-c", l).CombinedOutput(); err != nil && !undo {
+					t.Fatalf("harness: %s: %v %s", l, err, out)
+				}
+			}
+		}
+		sh(false, "ip addr add 10.77.0.2/32 dev lo", "ip rule add pref 10 lookup local", "ip rule del pref 0",
+			"ip rule add pref 5 ipproto tcp to "+rp.Hostname+" lookup 77", "ip route add local "+rp.Hostname+"/32 dev lo src 10.77.0.2 table 77")
+		defer sh(true, "ip rule del pref 5", "ip route flush table 77", "ip rule add pref 0 lookup local", "ip rule del pref 10", "ip addr del 10.77.0.2/32 dev lo")
 	}
 	synctest.Test(t, func(t *testing.T) {
 		w := wire.New(s.Script)
@@ -299,7 +329,7 @@ func runRun(t *testing.T, s *Scenario) (evs []wire.Event) {
 						res = nil
 					}
 				} else if status != 200 {
-					err = fmt.Errorf("http %d: %s", status, body)
+					err = &httpError{status: status, body: body}
 				}
 			} else if len(s.Mix) > 0 {
 				// several requests (any mix of protocols) running at once in one process over the shared wire
